@@ -148,7 +148,8 @@ pub fn run_case_best(c: &Case) -> Option<Ply> {
     }
     sv::VCLOCK_CALLS.store(0, Ordering::Relaxed);
     sv::VCLOCK_DIV.store(c.vdiv, Ordering::Relaxed);
-    let mut search = Search::new(&board, Some(limits));
+    // `bench` and the tests build their searches without limits and pass the depth to `search` alone; `go depth N` passes it both ways
+    let mut search = if BENCH_PATH.load(Ordering::Relaxed) { Search::new(&board, None) } else { Search::new(&board, Some(limits)) };
     let outcome = std::panic::catch_unwind(std::panic::AssertUnwindSafe(|| {
         search.search(&SimpleEvaluator, Some(c.depth));
     }));
@@ -177,6 +178,16 @@ pub fn run_case_best(c: &Case) -> Option<Ply> {
             println!("V {} {}", w.virtual_ms.map_or("-".to_string(), |v| v.to_string()), w.timer.map_or("-".to_string(), |v| v.to_string()));
         }
     }
+    // the search works on its own copy of the position and takes every move back: when a search that ran to its depth returns,
+    // that board's key must be the root's again, which is the from-scratch key of the root position.  (A search that was cut
+    // short abandons its working board in the middle of a line — by design: the abort path returns without taking the moves
+    // back and the answer is read from the untouched original — so the check applies to uninterrupted searches only.)
+    if outcome.is_ok() && c.nodes.is_none() && c.stop == 0 && c.vdiv == 0 {
+        let (bk, rk) = (sv::board_key(&search), sv::root_key(&search));
+        if bk != rk || rk != board.zkey || board.zkey != crate::board::zkey::ZKey::from(&board) {
+            println!("K key-drift search_board={:x} search_root={:x} position={:x} from_scratch={:x}", bv::key_u64(bk), bv::key_u64(rk), bv::key_u64(board.zkey), bv::key_u64(crate::board::zkey::ZKey::from(&board)));
+        }
+    }
     let (n, sum) = tt_summary();
     let root = TRANSPOSITION_TABLE.read().unwrap().get(&board.zkey).copied();
     println!(
@@ -199,6 +210,9 @@ pub fn run_case_best(c: &Case) -> Option<Ply> {
 
 /// positions: seeds, bench FENs, and positions reached by random play (kept with their move history)
 /// roots with exactly one legal move (in check and not), and roots without any (mated, stalemated)
+/// when set, `run_case` builds the search the way `bench` does (`Search::new(board, None)`)
+static BENCH_PATH: std::sync::atomic::AtomicBool = std::sync::atomic::AtomicBool::new(false);
+
 pub const FORCED: [(&str, &str); 16] = [
     // a knight mates a king walled in by its own immobile men: the mated side has no pseudo-legal move AT ALL (one ply below the root)
     ("k7/8/8/8/6p1/3nr1P1/4P1PB/5BRK b - - 0 1", ""),
@@ -464,6 +478,67 @@ pub fn search_stream(args: &[String]) {
                         run_case(&Case { fen, moves: vec![], depth: d, nodes: None, stop: 0, cache: "off", tag: String::new(), tc: NO_TC, vdiv: 0 });
                     }
                 }
+            }
+            // … and pawnless positions with a material imbalance (the side behind would love the draw): kings, one to three pieces of
+            // the stronger side, at most one of the weaker, the clock at 95..99 — quiet moves three plies down complete the hundred
+            let mut made = 0usize;
+            let mut tries = 0u32;
+            while made < count.min(48) && tries < 100_000 {
+                tries += 1;
+                let mut sq: Vec<usize> = (0..64).collect();
+                for i in (1..64).rev() {
+                    let j = rng.below(i as u64 + 1) as usize;
+                    sq.swap(i, j);
+                }
+                let mut g: [Option<char>; 64] = [None; 64];
+                g[sq[0]] = Some('K');
+                g[sq[1]] = Some('k');
+                let strong_white = rng.below(2) == 0;
+                let strong = ['Q', 'R', 'B', 'N', 'R'];
+                let ns = 1 + rng.below(3) as usize;
+                for i in 0..ns {
+                    let c = strong[rng.below(5) as usize];
+                    g[sq[2 + i]] = Some(if strong_white { c } else { c.to_ascii_lowercase() });
+                }
+                if rng.below(2) == 0 {
+                    let c = ['B', 'N', 'R'][rng.below(3) as usize];
+                    g[sq[6]] = Some(if strong_white { c.to_ascii_lowercase() } else { c });
+                }
+                let turn = if rng.below(3) == 0 { strong_white } else { !strong_white }; // mostly the weaker side to move
+                let fen = format!("{} {} - - {} 90", super::grid_placement(&g), if turn { "w" } else { "b" }, 95 + rng.below(5));
+                let mut b = Board::from_fen(&fen);
+                if b.is_in_check(b.current_turn.opposite()) || b.get_legal_moves().is_empty() {
+                    continue;
+                }
+                made += 1;
+                if !mine(&mut idx) {
+                    continue;
+                }
+                for d in [3u8.min(maxdepth), maxdepth] {
+                    if heavier_than_with(&fen, d, 30_000, true) {
+                        println!("# heavy case dropped: depth {d} [{fen}]");
+                        continue;
+                    }
+                    run_case(&Case { fen: fen.clone(), moves: vec![], depth: d, nodes: None, stop: 0, cache: "off", tag: String::new(), tc: NO_TC, vdiv: 0 });
+                }
+            }
+        }
+        "deepseed" => {
+            // the seed positions (openings, middlegames, tactical set-ups) searched to a depth the Lean model is too slow for: only the
+            // property-level checks on the engine's own output apply (info order and syntax, every PV legal by the rules, one legal
+            // bestmove, the search board's key restored) — the model is not run (`tag=deep`)
+            for (fen, moves) in pos.iter().take(count) {
+                if !mine(&mut idx) {
+                    continue;
+                }
+                if !moves.is_empty() {
+                    continue;
+                }
+                if heavier_than_with(fen, maxdepth, 1_500_000, false) {
+                    println!("# heavy case dropped: depth {maxdepth} [{fen}]");
+                    continue;
+                }
+                run_case(&Case { fen: fen.clone(), moves: vec![], depth: maxdepth, nodes: None, stop: 0, cache: "fresh", tag: "tag=deep".to_string(), tc: NO_TC, vdiv: 0 });
             }
         }
         "deepend" => {
@@ -770,6 +845,11 @@ pub fn search_stream(args: &[String]) {
                 for _ in 0..repeat.max(2) {
                     run_case(&Case { fen: fen.clone(), moves: vec![], depth: d, nodes: None, stop: 0, cache: "fresh", tag: "tag=deep".to_string(), tc: NO_TC, vdiv: 0 });
                 }
+                // … and once more the way `bench` searches (no limits object, the depth given to `search` only): same position, same
+                // depth, empty cache — the same result
+                BENCH_PATH.store(true, Ordering::Relaxed);
+                run_case(&Case { fen: fen.clone(), moves: vec![], depth: d, nodes: None, stop: 0, cache: "fresh", tag: "tag=deep".to_string(), tc: NO_TC, vdiv: 0 });
+                BENCH_PATH.store(false, Ordering::Relaxed);
             }
         }
         "promo" => {
